@@ -202,13 +202,16 @@ func (x *Exec) valEq(c *evalCtx, l, r Val) (Term, error) {
 		return Eq(r.Ref, l.T), nil
 	}
 	if l.K == VSlice && r.K == VSlice {
-		return And(Eq(l.Ref, r.Ref), Eq(l.Off, r.Off), Eq(l.Len, r.Len)), nil
+		// offsets are compared only between engine-made sub-slices; slices stored in entry / returned
+		// objects are identified by their backing reference (see normalizeEntrySlice)
+		return And(Eq(l.Ref, r.Ref), Eq(l.Len, r.Len)), nil
 	}
 	if l.K == VStruct || r.K == VStruct {
 		fa, fb := flatten(l), flatten(r)
 		if len(fa) != len(fb) {
 			return Term{}, fmt.Errorf("comparing structs of different shape")
 		}
+		_ = fa
 		eq := BoolT(true)
 		for i := range fa {
 			eq = And(eq, Eq(fa[i], fb[i]))
@@ -535,6 +538,18 @@ func (x *Exec) evalCall(c *evalCtx, call ECall) (Val, error) {
 	case "negProto":
 		x.Reg.DeclareFun("negProto", []string{SInt}, SStr)
 		return strV(app("negProto", SStr, a[0].T)), nil
+	case "payload":
+		// payload(iface): the concrete value inside an interface whose dynamic type is statically known
+		if a[0].K == VIface && a[0].Dyn != nil && a[0].Payload != nil {
+			pv := *a[0].Payload
+			pv.GoT = a[0].Dyn
+			return pv, nil
+		}
+		if a[0].K != VIface {
+			return a[0], nil
+		}
+		x.declIfaceFns()
+		return intV(app("payl", SInt, a[0].T)), nil
 	case "sameDynType":
 		x.declIfaceFns()
 		return boolV(Eq(x.msgTag(a[0]), x.msgTag(a[1]))), nil
